@@ -259,6 +259,9 @@ func CheckMain(id, tier string) int {
 			nw = v
 		}
 	}
+	if mw, ok := p.(interface{ MaxWorkers() int }); ok && nw > mw.MaxWorkers() {
+		nw = mw.MaxWorkers()
+	}
 	if nw > len(units) {
 		nw = len(units)
 	}
